@@ -227,7 +227,9 @@ impl Restorer {
             if is_target {
                 if path == source_path {
                     let metadata = self.get_file_metadata(&header)?;
-                    assert!(restore_metadata.replace((restore_path.clone(), metadata)).is_none());
+                    if restore_metadata.replace((restore_path.clone(), metadata)).is_some() {
+                        return Err!("The backup metadata has several records for {:?}", path);
+                    }
                 } else {
                     self.pre_created_directories.extend(util::restore_directories(restore_dir, path)?);
                     self.mark_extern_file_restored(source_path, path)?;
